@@ -387,6 +387,11 @@ def specs(tier):
                 except Exception:
                     continue
                 out.append(nb)
+    # two-space forms also with the space indices exchanged (trial function in space 1, test function in space 0): which space a function
+    # lives in is the user's choice, the matrix is (test dofs) x (trial dofs) either way
+    for s in list(out):
+        if s.get('arity', 2) == 2 and list(s.get('spaces', [0, 0])) == [0, 1]:
+            out.append(dict(s, spaces=[1, 0]))
     return out
 
 
